@@ -111,6 +111,8 @@ def earlier_assignment(mps, x, aseed: int):
             for n in list(mps.cost_specification.keys()) \
                     if isinstance(mps.cost_specification, dict) else [None]:
                 mps.get_cost(n) if n is not None else mps.cost
+            if aseed % 3 == 0:
+                mps.export()                     # ... and that assignment was exported
         except Exception:  # noqa - whatever fails here fails again, visibly, in the case proper
             pass
     mps.train(was)
